@@ -210,6 +210,20 @@ func doUnmarshal(t reflect.Type, b []byte) string {
 			}
 			return showStruct(arr.Elem().Index(1))
 		}
+		if turn == 3 && prev != nil && hasPointerField(t) {
+			// a copy kept of an earlier decoded value must not change when the variable it was decoded into is
+			// decoded into again (the codec allocates what pointer fields point to; it must not write through them)
+			q := reflect.New(t)
+			if err := codec.Unmarshal(prev, q.Interface()); err == nil {
+				kept := reflect.New(t).Elem()
+				kept.Set(q.Elem())
+				before := showStruct(kept)
+				codec.Unmarshal(append([]byte{}, b...), q.Interface())
+				if showStruct(kept) != before {
+					return "changed-an-earlier-decoded-value"
+				}
+			}
+		}
 		p := reflect.New(t)
 		if turn == 3 && prev != nil && !hasPointerField(t) {
 			// the destination already holds another decoded message of this type: every field must be overwritten.
